@@ -30,7 +30,7 @@ package destination
 //@   ensures[empties]  result == nil ==> b.n == 0
 //@
 //@ func (b *Writer) Write(p []byte) (nn int, err error)
-//@   property C05
+//@   property C05,C06
 //@   requires b.rep()
 //@   requires p.arr != b.buf.arr
 //@   modifies b.n, b.err, b.buf[..], b.wr.stream
@@ -187,7 +187,7 @@ package destination
 //@   bounded TestBounded_pickleFrame "336 lines (6 names incl. tagged and non-ASCII ones x 14 value spellings incl. 1e3, -0, NaN, Inf, 20-digit integers x 4 timestamps up to 2^32-1): the frame is a 4-byte big-endian length followed by a pickle that CPython decodes to [(name, (timestamp, value))] with the same name, integer timestamp and float value; 8 lines that cannot be represented (field count, non-integer or out-of-range timestamp, non-numeric value) are rejected"
 //@
 //@ func (c *Conn) Write(buf []byte) (written int, err error)
-//@   property C05,C16
+//@   property C05,C06,C16
 //@   requires connBufOK(c) && buf.arr != c.buffered.buf.arr
 //@   modifies c.buffered.n, c.buffered.err, c.buffered.buf[..], c.buffered.wr.stream, allof("ghost:metrics.Counter.count")
 //@   ensures[pickle_mode_frames; C05,C16] c.pickle && err == nil ==> (c.buffered.view() == old(c.buffered.view())
